@@ -10,6 +10,34 @@ pub mod c18;
 pub mod c19;
 pub mod c20;
 
+/// The committed regression scenarios of a property (`findings/<ID>-*.json`), sorted by file
+/// name: seeds for the neighbourhood families of the generators.
+pub fn corpus(prop: &str) -> &'static [Scenario] {
+    use std::sync::OnceLock;
+    static C: OnceLock<std::collections::BTreeMap<String, Vec<Scenario>>> = OnceLock::new();
+    let all = C.get_or_init(|| {
+        let mut m: std::collections::BTreeMap<String, Vec<Scenario>> = Default::default();
+        let dir = crate::h::driver::verif_root_pub().join("findings");
+        let mut files: Vec<std::path::PathBuf> = std::fs::read_dir(&dir)
+            .map(|d| d.filter_map(|e| e.ok().map(|e| e.path())).collect())
+            .unwrap_or_default();
+        files.sort();
+        for f in files {
+            let name = f.file_name().and_then(|n| n.to_str()).unwrap_or("").to_string();
+            if !name.ends_with(".json") {
+                continue;
+            }
+            if let Ok(text) = std::fs::read_to_string(&f) {
+                if let Ok(sc) = serde_json::from_str::<Scenario>(&text) {
+                    m.entry(name[..3].to_string()).or_default().push(sc);
+                }
+            }
+        }
+        m
+    });
+    all.get(prop).map_or(&[], |v| v.as_slice())
+}
+
 fn c19_work(seed: u64, tier: Tier, idx: u64) -> Option<Scenario> {
     // sweeps first (all two-way splits of the corpus sessions, three-way splits at header/body
     // boundaries), then seeded random deliveries
@@ -90,7 +118,7 @@ fn c07_work(seed: u64, tier: Tier, idx: u64) -> Option<Scenario> {
 }
 
 fn c01_work(seed: u64, tier: Tier, idx: u64) -> Option<Scenario> {
-    let random = if tier == Tier::Quick { 15_000 } else { 800_000 };
+    let random = if tier == Tier::Quick { 20_000 } else { 1_000_000 };
     if idx < random {
         Some(c01::generate(seed, idx))
     } else {
